@@ -27,6 +27,10 @@ Base ==
                          Req(<<"eq", <<"len", <<"var", "key">>>>, <<"len", <<"var", "key">>>>>>) >>),
       Wrap  |-> RuleP(<<"p">>, Let("tmp", Ref("p"), Seq2(Py(<<"lst", << <<"var", "tmp">>, <<"var", "tmp">> >> >>),
                                                         Rep(Str(<<42>>), NoB, Nb(2))))),
+      \* a class with a VALUE parameter: its curried entry point  Cnt.parse(2)(text)  is used from outside
+      Cnt   |-> ClassP(<<"m">>, <<Field("xs", Rep(Str(<<42>>), Nm("m"), Nm("m"))), Field("more", Opt(Ref("Word")))>>),
+      \* defined after the classes: inline Python with a lambda, inside a compound argument (moved into a helper function)
+      Zlast |-> Rule(Call("Wrap", <<Pos(Where(Ref("Word"), Py(<<"lam", "ne", <<"k", <<"s", <<a>>>>>>>>)))>>)),
       Box   |-> ClassP(<<"q">>, <<Field("it", Ref("q")), LetF("n", Py(<<"k", <<"i", 1>>>>)),
                                   Field("stars", Rep(Str(<<42>>), Nm("n"), Nm("n")))>>) ]
 
@@ -34,7 +38,7 @@ Base ==
 Roles == << <<"Item", "rule">>, <<"Word", "rule">>, <<"Pair", "class">>, <<"key", "field">>, <<"val", "field">>,
             <<"gap", "let field">>, <<"Wrap", "template">>, <<"p", "parameter">>, <<"tmp", "let variable">>,
             <<"Box", "class template">>, <<"q", "parameter">>, <<"it", "field">>, <<"n", "let field">>,
-            <<"stars", "field">> >>
+            <<"stars", "field">>, <<"m", "parameter">>, <<"xs", "field">>, <<"Cnt", "class template">> >>
 
 R(rho, x) == IF x \in DOMAIN rho THEN rho[x] ELSE x
 
@@ -107,8 +111,15 @@ StepFixed ==
         /\ done' = TRUE
         /\ UNCHANGED <<ri, pi>>
         /\ IF Clash THEN TRUE
-           ELSE EmitCase(G1, [prop |-> "C20", renamed |-> Roles[ri][1], role |-> Roles[ri][2], to |-> Pool[pi].name],
-                         <<"start", RhoOf("Item"), RhoOf("Word"), RhoOf("Pair")>>, Texts)
+           ELSE LET es == <<"start", RhoOf("Item"), RhoOf("Word"), RhoOf("Pair"), "Zlast">>
+                    n1 == Len(es) * Len(Texts)
+                    cur == << <<42, 42, a>>, <<42, 42>>, <<42>>, <<42, 42, 42>>, <<>> >>
+                IN PrintT(ToJson([g |-> G1,
+                                  cfg |-> [prop |-> "C20", renamed |-> Roles[ri][1], role |-> Roles[ri][2], to |-> Pool[pi].name],
+                                  runs |-> [k \in 1..(n1 + Len(cur)) |->
+                                              IF k <= n1
+                                              THEN Run(G1, es[((k - 1) \div Len(Texts)) + 1], Texts[((k - 1) % Len(Texts)) + 1], 0)
+                                              ELSE RunArgs(G1, RhoOf("Cnt"), << <<"i", 2>> >>, cur[k - n1], 0)]]))
 
 Next == StepFixed
 
